@@ -42,8 +42,10 @@ Doc(fmt, tfm, skipdef, fault, tests) ==
 \*  pre / app : test cases of the shared prepend / append document (<<>> = none)
 \*  via : "cli" (-P / -A: every document) | "fm" (front-matter of the first document only)
 \*  noshell : --shell points to a program that does not exist
+\*  dirarg : the documents are not named one by one; the directory that contains them (and a nested directory, and
+\*           files that are no test documents) is given instead -- the order among them is then unspecified
 Run(docs, tcli, pre, app, via, noshell) ==
-    [docs |-> docs, tcli |-> tcli, pre |-> pre, app |-> app, via |-> via, noshell |-> noshell]
+    [docs |-> docs, tcli |-> tcli, pre |-> pre, app |-> app, via |-> via, noshell |-> noshell, dirarg |-> FALSE]
 
 HasShared(s, i) == s.via = "cli" \/ (i = 1 /\ s.docs[1].fmt = "md")   \* front-matter exists only in Markdown
 Assembled(s, i) == (IF HasShared(s, i) THEN s.pre ELSE <<>>) \o s.docs[i].tests
